@@ -19,7 +19,7 @@ type c13 struct{ base }
 
 func init() {
 	core.Register(c13{base{id: "C13", level: "exploration", quickB: 16, thoroughB: 32,
-		rule: "after a scripted COPY handler starts COPY-in (1-20 columns, text or binary), the client sends sequences over {CopyData(payload of size 0,1,4095-4097,near L,random), Flush, Sync} ended by one of {CopyDone, CopyFail(text), Query, Parse, unknown-type message, oversized CopyData, nothing (handler stops first)}, followed by stray CopyData/CopyDone/CopyFail and a probe Query; handler variants: read to the end and propagate errors / stop after k chunks with its own error / stop after k chunks and complete / swallow the abort and complete. Simple-Query mode and Execute mode (trailing Sync). quick: exhaustive sequences of length <= 4 over a 6-symbol alphabet x terminators + random length <= 8; lock-step, every step's reply and the chunks/errors the handler observed are compared with the COPY model. Non-trivial = abort path, interleaved Flush/Sync, stop-early handler or stray messages; distinct = (mode, handler variant, message-kind sequence).",
+		rule: "after a scripted COPY handler starts COPY-in (1-20 columns, text or binary), the client sends sequences over {CopyData(payload of size 0,1,4095-4097,near L,random), Flush, Sync} ended by one of {CopyDone, CopyFail(text), Query, Parse, unknown-type message, oversized CopyData, Terminate, nothing (handler stops first)}, followed by stray CopyData/CopyDone/CopyFail and a probe Query; handler variants: read to the end and propagate errors / stop after k chunks with its own error / stop after k chunks and complete / swallow the abort and complete. Simple-Query mode and Execute mode (trailing Sync). quick: exhaustive sequences of length <= 4 over a 6-symbol alphabet x terminators + random length <= 8; lock-step, every step's reply and the chunks/errors the handler observed are compared with the COPY model. Non-trivial = abort path, interleaved Flush/Sync, stop-early handler or stray messages; distinct = (mode, handler variant, message-kind sequence).",
 		need:        []string{"copy_cycles", "chunks_compared", "copyfail_aborts", "foreign_message_aborts", "flush_sync_ignored", "stray_copy_messages", "handler_stops_early", "execute_mode_cycles"},
 		assumptions: append([]string{"'exactly one ErrorResponse' is judged for handlers that propagate the reader's error or fail themselves; a handler that swallows the abort and completes is judged for well-formedness, chunk fidelity and a single ReadyForQuery"}, commonAssumptions...)}})
 }
@@ -238,6 +238,9 @@ func (ch c13) runCase(c *core.Ctx, env *hs.Env, k c13case, rng *core.Rng, idx in
 	case "unknown":
 		termMsg = pg.Raw('F', []byte{0, 0, 0, 1})
 		handlerSawErr = active
+	case "terminate":
+		termMsg = pg.Terminate()
+		handlerSawErr = active
 	case "oversize":
 		termMsg = pg.Raw('d', bytes.Repeat([]byte{'o'}, c13L+1+rng.Intn(3*c13L)))
 		handlerSawErr = active
@@ -254,12 +257,39 @@ func (ch c13) runCase(c *core.Ctx, env *hs.Env, k c13case, rng *core.Rng, idx in
 		}
 	}
 	if k.Term != "none" {
-		if !active && (k.Term == "query" || k.Term == "parse" || k.Term == "unknown" || k.Term == "oversize") {
+		if !active && (k.Term == "query" || k.Term == "parse" || k.Term == "unknown" || k.Term == "oversize" || k.Term == "terminate") {
 			viol("harness", "foreign terminator after the handler stopped is not generated", "")
 			return
 		}
 		if !active {
 			c.Count("stray_copy_messages", 1)
+		}
+		if k.Term == "terminate" {
+			out, _ := cl.Step(termMsg)
+			if hangCheck(c, cl, cs) {
+				return
+			}
+			if _, err := parseAll(out); err != nil {
+				viol("grammar", "reply not well-formed after Terminate during COPY", err.Error())
+				return
+			}
+			var last *hs.CopyRec
+			for _, e := range cl.C.Events() {
+				if e.Kind == "cb" && e.Name == "copyread" {
+					r := e.Data.(hs.CopyRec)
+					last = &r
+				}
+			}
+			c.Count("foreign_message_aborts", 1)
+			if last == nil || last.ErrNil || last.EOF {
+				viol("abort-as-success", "terminate surfaced to the handler as end-of-stream or success", fmt.Sprintf("last observation %+v; reply %s", last, replyKinds(out)))
+				return
+			}
+			if strings.Contains(pg.Types(mustMsgs(out)), "C") {
+				viol("abort-as-success", "COPY interrupted by Terminate was completed", replyKinds(out))
+			}
+			c.Eval(k.sig(), true)
+			return
 		}
 		if !step("terminator "+k.Term, termMsg, termWant) {
 			return
@@ -348,11 +378,16 @@ func (ch c13) runCase(c *core.Ctx, env *hs.Env, k c13case, rng *core.Rng, idx in
 	}
 }
 
+func mustMsgs(out []byte) []pg.BMsg {
+	m, _, _ := pg.ParseStream(out)
+	return m
+}
+
 func (ch c13) Run(c *core.Ctx) {
 	nb := ch.Batches(c.Tier)
 	env := hs.Start(hs.Parse, wire.MessageBufferSize(c13L))
 	defer env.Stop()
-	terms := []string{"done", "fail", "query", "parse", "unknown", "oversize", "none"}
+	terms := []string{"done", "fail", "query", "parse", "unknown", "oversize", "terminate", "none"}
 	handlers := []string{"propagate", "stop-own", "stop-complete", "swallow"}
 	fix := func(k *c13case, rng *core.Rng) {
 		nd := 0
@@ -370,6 +405,13 @@ func (ch c13) Run(c *core.Ctx) {
 				if k.Term != "done" && k.Term != "fail" && k.Term != "none" {
 					k.Term = "done"
 				}
+			}
+		}
+		if k.Term == "terminate" {
+			// after a Terminate the server may go on or close the connection: nothing is sent afterwards
+			k.Strays = nil
+			if k.Handler == "swallow" {
+				k.Handler = "propagate"
 			}
 		}
 		if k.Exec {
